@@ -256,6 +256,18 @@ def history_setter(acc, t1, t2):
         c.ast = AST(S.build_ast(t2))
         got = answers(c)
         want = answers(Constraint("T", AST(S.build_ast(t2))))
+        if got == want:
+            # second kind of edit: node attributes assigned directly (same AST object, no setter)
+            import random as _random
+            c = Constraint("T", AST(S.build_ast(t1)))
+            answers(c)
+            t3 = S.inplace_edit_ast(c.ast, t1, _random.Random(S.digest([t1, t2])), sorted(S.ast_names(t1) | S.ast_names(t2)),
+                                    ("AND", "OR", "IMPLIES", "REQUIRES"))
+            if t3 is not None:
+                got = answers(c)
+                want = answers(Constraint("T", AST(S.build_ast(t3))))
+                t2 = t3
+                payload = {"cls": "history:ast-setter", "ast": t3, "before": t1, "kind": "node edited in place"}
     except Exception as e:  # noqa: BLE001
         acc.fail("history:ast-setter", "no-exception", W, [], f"raises:{type(e).__name__}", str(e)[:200], payload)
         return
